@@ -58,7 +58,7 @@ def kept_when(t):
     return None
 
 
-def proofs_length_fact(ck, prog, build_body, targets_term, n_term, field, ctor_rx):
+def proofs_length_fact(ck, prog, build_body, targets_term, n_term, field, ctor_rx, extra_field=None):
     """Is `targets.<field>` (the vector of child proof targets) known to hold exactly `n` entries inside the constraint builder?
     Established across functions: add_recursive_verifiers returns one entry per iteration of 0..num_proofs; the only caller of the
     builder function (the circuit constructor) stores that vector in the targets it passes, and passes the same count.  When it
@@ -88,6 +88,15 @@ def proofs_length_fact(ck, prog, build_body, targets_term, n_term, field, ctor_r
         ok3 = fld is not None and P.ok_value(fld) == P.ok_value(er[0].result) and P.norm(eb[0].args[2]) == P.norm(er[0].args[3])
     if ok1 and ok2 and ok3:
         lc.TERM_LEN[("fld", targets_term, field)] = n_term
+    # the same for a per-slot input vector of the targets struct (`dummy_nullifier_pre_images`): one unconditional push per
+    # iteration of 0..count in the constructor, count being what is passed on as n
+    if ok2 and extra_field and len(eb) == 1 and len(eb[0].args) >= 3:
+        tg = P.norm(eb[0].args[1])
+        fld = dict(tg[3]).get(extra_field) if (isinstance(tg, tuple) and tg and tg[0] == "adt") else None
+        pv2 = circ.per_iteration_value(cf, effs, fld) if fld is not None else None
+        r2 = circ.range_expr(pv2[1]) if pv2 is not None else None
+        if r2 is not None and P.const_of(r2[0]) == 0 and P.norm(r2[1]) == P.norm(eb[0].args[2]):
+            lc.TERM_LEN[("fld", targets_term, extra_field)] = n_term
     return (ok1 and ok2 and ok3), {"one entry per 0..num_proofs": ok1, "single caller (constructor)": ok2, "same vector and same count passed": ok3}
 
 
@@ -110,7 +119,7 @@ class PBView:
         self._nests = {}
         self._filled = {}
         # lengths: targets.leaf_proofs has n_leaf entries (constructor fact); vectors filled one entry per slot have the loop's length
-        self.len_fact = proofs_length_fact(ck, prog, self.body, self.targets, self.n, "leaf_proofs", r"private_batch::circuit::circuit_logic::PrivateBatchCircuit::new$")
+        self.len_fact = proofs_length_fact(ck, prog, self.body, self.targets, self.n, "leaf_proofs", r"private_batch::circuit::circuit_logic::PrivateBatchCircuit::new$", extra_field="dummy_nullifier_pre_images")
         lc.register_filled(self.effects)
 
     # ---- canonical terms ---------------------------------------------------------------
